@@ -12,6 +12,8 @@ pub(super) mod constants {
     pub(super) const BUF_SIZE: usize = 4 * KB;
     /// Random polynomial maximum tries.
     pub(super) const RAND_POLY_MAX_TRIES: i32 = 1_000_000;
+    /// The size of the rolling hash window
+    pub(super) const WINDOW_SIZE: usize = 64;
 }
 
 pub(crate) fn check_rabin_params(
@@ -19,12 +21,19 @@ pub(crate) fn check_rabin_params(
     chunk_min_size: usize,
     chunk_max_size: usize,
 ) -> RusticResult<()> {
-    if (chunk_size & (chunk_size - 1)) != 0 {
+    if !chunk_size.is_power_of_two() {
         return Err(RusticError::new(
             ErrorKind::Unsupported,
             "Chunk size must be a power of 2 for the rabin chunker. chunk size = {chunk_size}.",
         )
         .attach_context("chunk_size", chunk_size.to_string()));
+    }
+    if chunk_min_size < constants::WINDOW_SIZE {
+        return Err(RusticError::new(
+            ErrorKind::Unsupported,
+            "Chunk min size must be at least the size of the rolling hash window ({window_size} bytes).",
+        )
+        .attach_context("window_size", constants::WINDOW_SIZE.to_string()));
     }
     if chunk_min_size > chunk_size {
         return Err(RusticError::new(
